@@ -1,5 +1,35 @@
 /-
-  C13, second part — the map surgery of the triangulation kernels (header completed below).
+  C13, second part — the map surgery of the triangulation kernels
+  (`honeycomb-kernels/src/triangulation/{fan,ear_clipping}.rs`, model `Model/Kernels/{Fan,EarClip}.lean`).
+  `Props/C13.lean` treats the vertex-list computations (star search, ear search, areas); this file treats what the
+  sew/unsew loops do to the map.  Tools: `Lemmas/KernelWF2.lean` (a successful sew = its link core + attribute moves;
+  exact β tables after each sew on a well-formed map).
+
+  PROVED (every map, every face size, every attribute configuration and law)
+  * `C13_earclip_preserves_WF`   — a successful `earclip_cell_*` keeps `WF 3`: any face, any polygon, any ears; the
+                                    only user-side hypotheses are "spare darts live and pairwise distinct"; all other
+                                    side conditions follow from the code's own reads and the success of its unsews.
+  * `C13_fan_preserves_WF`, `C13_fan_convex_preserves_WF`, `C13_fan_preserves_WF_closed_face`
+                                  — a successful `fan_cell` / `fan_convex_cell` keeps `WF 3` on a closed face (given as
+                                    one β1-cycle, or dart-wise as β1-paths) with live, pairwise distinct spare darts
+                                    outside the face.  The closedness hypothesis is NECESSARY: on an open β1-chain the
+                                    final `sew::<1>(β1(β1 d0), d0)` can be `sew::<1>(0, d0)`, which succeeds and
+                                    writes β1(0) (the model and the real code agree: degenerate stream of c13.py).
+  * `C13_fan_structure`, `C13_fan_convex_structure`, `C13_fan_cell_structure` (`FanResult`)
+                                  — exact face structure after the fan: the n−2 triangles
+                                    (s,c1,p1), (q1,c2,p2), …, (q_{n-3},c_{n-2},c_{n-1}) are closed β1-cycles of three
+                                    darts; spare darts 2-linked pair by pair; β2 of every other dart (every side of
+                                    the polygon) unchanged; every β image of every dart outside face ∪ spares
+                                    unchanged.
+  * `closedFace_orbit`, `ClosedFace.rotate` — a closed cycle is exactly what `orbit_transac(FaceLinear, ·)`
+                                    enumerates from any of its darts (uses C03's BFS theorem).
+
+  NOT PROVED
+  * the exact face structure after EAR CLIPPING (each cut ear is a triangle of the intended darts): needs the
+    invariant "the kernel's `darts` vector is the current face in cyclic order" through the vector surgery
+    (`remove / push / swap_remove`), which is false for `ear = n − 1` (unreachable on simple polygons);
+  * that the triangles of `FanResult` carry the coordinates of `fanTriangles` (vertex data only moves through
+    `avg v v = v` on equal copies and the final `write_vertex`); both validated by the oracle of c13.py.
 -/
 import Honeycomb.Lemmas.KernelWF2
 import Honeycomb.Props.C13
@@ -330,27 +360,37 @@ theorem B1Chain.prefix {m : Map Val} : ∀ (l1 l2 : List Nat) (d : Nat), B1Chain
   | nil => intro _ _ _; trivial
   | cons y rest ih => intro l2 d h; exact ⟨h.1, ih l2 y h.2⟩
 
-/-- from any dart of a closed face, the rest of the face lies ahead on its β1-path -/
+theorem ClosedFace.facePath {m : Map Val} {s : Nat} {L : List Nat} (hc : ClosedFace m s L) : FacePath m s L :=
+  ⟨B1Chain.prefix L [s] s hc.chain, hc.nodup, fun x hx => hc.nz x (List.mem_cons_of_mem _ hx)⟩
+
+/-- a closed face can be read from any of its darts: the rest of the face lies ahead on the β1-path -/
 theorem ClosedFace.rotate {m : Map Val} {a : Nat} {rest : List Nat} (hc : ClosedFace m a rest) {s : Nat}
     (hs : s ∈ a :: rest) :
-    ∃ L, FacePath m s L ∧ L.length + 1 = (a :: rest).length ∧ (∀ x, x ∈ L → x ∈ a :: rest) ∧
+    ∃ L, ClosedFace m s L ∧ L.length + 1 = (a :: rest).length ∧ (∀ x, x ∈ L → x ∈ a :: rest) ∧
       (∀ x, x ∈ a :: rest → x = s ∨ x ∈ L) := by
   obtain ⟨pre, post, hsplit⟩ := List.append_of_mem hs
   cases pre with
   | nil =>
       simp only [List.nil_append, List.cons.injEq] at hsplit
       obtain ⟨rfl, rfl⟩ := hsplit
-      exact ⟨rest, ⟨B1Chain.prefix rest [a] a hc.chain, hc.nodup, fun x hx => hc.nz x (by simp [hx])⟩, rfl,
-        fun x hx => by simp [hx], fun x hx => by simpa using hx⟩
+      exact ⟨rest, hc, rfl, fun x hx => by simp [hx], fun x hx => by simpa using hx⟩
   | cons b pre' =>
       simp only [List.cons_append, List.cons.injEq] at hsplit
       obtain ⟨rfl, hrest⟩ := hsplit
       have hch := hc.chain
       rw [hrest, List.append_assoc, List.cons_append, B1Chain.append] at hch
       obtain ⟨h1, h2⟩ := hch
-      refine ⟨post ++ a :: pre', ⟨?_, ?_, ?_⟩, ?_, ?_, ?_⟩
-      · rw [B1Chain.append]
-        exact ⟨h2, B1Chain.prefix pre' [s] a h1⟩
+      have hmem : ∀ x, x ∈ post ++ a :: pre' → x ∈ a :: rest := by
+        intro x hx
+        rw [hrest]
+        simp only [List.mem_append, List.mem_cons] at hx ⊢
+        rcases hx with h | h | h
+        · exact Or.inr (Or.inr (Or.inr h))
+        · exact Or.inl h
+        · exact Or.inr (Or.inl h)
+      refine ⟨post ++ a :: pre', ⟨?_, ?_, ?_⟩, ?_, hmem, ?_⟩
+      · rw [List.append_assoc, List.cons_append, B1Chain.append]
+        exact ⟨h2, h1⟩
       · have hnd := hc.nodup
         rw [hrest] at hnd
         have hperm : (s :: (post ++ a :: pre')).Perm (a :: (pre' ++ s :: post)) := by
@@ -360,20 +400,11 @@ theorem ClosedFace.rotate {m : Map Val} {a : Nat} {rest : List Nat} (hc : Closed
         exact hperm.nodup_iff.2 hnd
       · intro x hx
         apply hc.nz x
-        rw [hrest]
-        simp only [List.mem_append, List.mem_cons] at hx ⊢
-        rcases hx with h | h | h
-        · exact Or.inr (Or.inr (Or.inr h))
-        · exact Or.inl h
-        · exact Or.inr (Or.inl h)
+        simp only [List.mem_cons] at hx
+        rcases hx with rfl | hx
+        · exact hs
+        · exact hmem x hx
       · rw [hrest]; simp; omega
-      · intro x hx
-        rw [hrest]
-        simp only [List.mem_append, List.mem_cons] at hx ⊢
-        rcases hx with h | h | h
-        · exact Or.inr (Or.inr (Or.inr h))
-        · exact Or.inl h
-        · exact Or.inr (Or.inl h)
       · intro x hx
         rw [hrest] at hx
         simp only [List.mem_append, List.mem_cons] at hx ⊢
@@ -397,12 +428,12 @@ theorem B1Chain.reach {m : Map Val} : ∀ (l : List Nat) (d : Nat), B1Chain m d 
       · exact h1.trans (ih y h.2 x hx)
 
 /-- a closed face is exactly what `orbit_transac(FaceLinear, face)` enumerates from any of its darts, and every
-    enumerated dart has the rest of the face ahead of it: the path hypothesis of `C13_fan_preserves_WF` -/
-theorem facePath_of_cycle {m : Map Val} (hwf : WF 3 m) {a : Nat} {rest : List Nat} (hc : ClosedFace m a rest)
-    {face : Nat} (hf : face ∈ a :: rest) (hlt : face < m.n) (nds : List Nat) (hdis : ∀ d ∈ nds, d ∉ a :: rest) :
-    ∀ darts, run (orbit2 m.n .faceLinear face) m = (.ok darts, m) → ∀ s ∈ darts,
-      ∃ L, FacePath m s L ∧ L.length + 1 = darts.length ∧ ∀ d ∈ nds, d ∉ L := by
-  intro darts hrun s hs
+    enumerated dart has the rest of the face ahead of it -/
+theorem closedFace_orbit {m : Map Val} (hwf : WF 3 m) {a : Nat} {rest : List Nat} (hc : ClosedFace m a rest)
+    {face : Nat} (hf : face ∈ a :: rest) (hlt : face < m.n) :
+    ∀ darts, run (orbit2 m.n .faceLinear face) m = (.ok darts, m) →
+      darts.length = (a :: rest).length ∧ ∀ s ∈ darts, s ∈ a :: rest := by
+  intro darts hrun
   have hf0 : face ≠ 0 := hc.nz face hf
   obtain ⟨hspec, _, hnd, _, hmem, _⟩ := C03.C03_orbit2_spec hwf (pol := .faceLinear) trivial hf0 hlt
   rw [hspec] at hrun
@@ -426,7 +457,7 @@ theorem facePath_of_cycle {m : Map Val} (hwf : WF 3 m) {a : Nat} {rest : List Na
     | tail _ hcx ih =>
         simp only [C03.g2, List.mem_singleton] at hcx
         rw [hcx]; exact hclosed _ ih
-  obtain ⟨Lf, hpf, _, _, hcov⟩ := hc.rotate hf
+  obtain ⟨Lf, hcf, _, _, hcov⟩ := hc.rotate hf
   have hsame : ∀ x, x ∈ C03.orb m .faceLinear face ↔ x ∈ a :: rest := by
     intro x
     rw [hmem]
@@ -436,11 +467,30 @@ theorem facePath_of_cycle {m : Map Val} (hwf : WF 3 m) {a : Nat} {rest : List Na
       refine ⟨hc.nz x hx, ?_⟩
       rcases hcov x hx with rfl | hL
       · exact .refl _
-      · exact B1Chain.reach Lf face hpf.chain x hL
-  have hlen : (C03.orb m .faceLinear face).length = (a :: rest).length :=
-    ((List.perm_ext_iff_of_nodup hnd hc.nodup).2 hsame).length_eq
-  obtain ⟨L, hp, hl, hin, _⟩ := hc.rotate ((hsame s).1 hs)
-  exact ⟨L, hp, by rw [hlen]; exact hl, fun d hd hh => hdis d hd (hin d hh)⟩
+      · exact B1Chain.reach Lf face hcf.facePath.chain x hL
+  exact ⟨((List.perm_ext_iff_of_nodup hnd hc.nodup).2 hsame).length_eq, fun s hs => (hsame s).1 hs⟩
+
+/-- the path hypothesis of `C13_fan_preserves_WF` from one closed cycle -/
+theorem facePath_of_cycle {m : Map Val} (hwf : WF 3 m) {a : Nat} {rest : List Nat} (hc : ClosedFace m a rest)
+    {face : Nat} (hf : face ∈ a :: rest) (hlt : face < m.n) (nds : List Nat) (hdis : ∀ d ∈ nds, d ∉ a :: rest) :
+    ∀ darts, run (orbit2 m.n .faceLinear face) m = (.ok darts, m) → ∀ s ∈ darts,
+      ∃ L, FacePath m s L ∧ L.length + 1 = darts.length ∧ ∀ d ∈ nds, d ∉ L := by
+  intro darts hrun s hs
+  obtain ⟨hlen, hin⟩ := closedFace_orbit hwf hc hf hlt darts hrun
+  obtain ⟨L, hcs, hl, hinL, _⟩ := hc.rotate (hin s hs)
+  exact ⟨L, hcs.facePath, by rw [hlen]; exact hl, fun d hd hh => hdis d hd (hinL d hh)⟩
+
+/-- a dart of a closed face exists -/
+theorem ClosedFace.lt {m : Map Val} (hwf : WF 3 m) {a : Nat} {rest : List Nat} (hc : ClosedFace m a rest)
+    {x : Nat} (hx : x ∈ a :: rest) : x < m.n := by
+  obtain ⟨L, hcx, _, _, _⟩ := hc.rotate hx
+  have := hcx.chain
+  cases L with
+  | nil =>
+      simp only [List.nil_append, B1Chain] at this
+      exact hwf.toSized.lt_of_β_ne (i := 1) (by omega) (by rw [this.1]; exact hc.nz _ hx)
+  | cons y L' =>
+      exact hwf.toSized.lt_of_β_ne (i := 1) (by omega) (by rw [this.1]; exact hcx.nz y (by simp))
 
 /-- **C13, well-formedness (fan) on a closed face**: `fan_cell` on a face given as one closed β1-cycle `a :: rest`
     (pairwise distinct non-null darts), with live, pairwise distinct spare darts outside the face -/
@@ -448,23 +498,473 @@ theorem C13_fan_preserves_WF_closed_face (cfg : Cfg Val) (m m' : Map Val) (face 
     (a : Nat) (rest : List Nat) (hwf : WF 3 m) (hc : ClosedFace m a rest) (hf : face ∈ a :: rest)
     (hsp : ∀ d ∈ nds, C01.InUse m d ∧ d ∉ a :: rest) (hnd : nds.Nodup)
     (h : run (fanCell cfg m.n face nds) m = (.ok (), m')) : WF 3 m' := by
-  obtain ⟨L, hp, _, hin, _⟩ := hc.rotate hf
-  have hlt : face < m.n := by
-    cases L with
-    | nil =>
-        -- a one-dart face: β1 face = face
-        have := hc.chain
-        cases rest with
-        | nil =>
-            simp only [List.nil_append, B1Chain] at this
-            simp only [List.mem_singleton] at hf
-            subst hf
-            exact hwf.toSized.lt_of_β_ne (i := 1) (by omega) (by rw [this.1]; exact hc.nz _ (by simp))
-        | cons y r => simp at *
-    | cons x L' =>
-        exact hwf.toSized.lt_of_β_ne (i := 1) (by omega) (by rw [hp.chain.1]; exact hp.nz x (by simp))
+  have hlt : face < m.n := hc.lt hwf hf
   exact C13_fan_preserves_WF cfg m m' face nds hwf
     (facePath_of_cycle hwf hc hf hlt nds (fun d hd => (hsp d hd).2)) (fun d hd => (hsp d hd).1) hnd h
+
+/-! ## exact face structure after the fan -/
+
+/-- `a → b → c → a` through β1: the three darts bound a triangular face -/
+def TriFace (m : Map Val) (t : Nat × Nat × Nat) : Prop :=
+  m.β 1 t.1 = t.2.1 ∧ m.β 1 t.2.1 = t.2.2 ∧ m.β 1 t.2.2 = t.1
+
+instance (m : Map Val) (t : Nat × Nat × Nat) : Decidable (TriFace m t) := by unfold TriFace; exact inferInstance
+
+/-- the triangles closed by the loop: `(d0, x1, d1)` per spare pair `(d1, d2)`, then on from `d2` -/
+def loopTris : Nat → List Nat → List (Nat × Nat) → List (Nat × Nat × Nat)
+  | d0, x1 :: L, (d1, d2) :: cs => (d0, x1, d1) :: loopTris d2 L cs
+  | _, _, _ => []
+
+/-- the dart returned by the loop -/
+def loopEnd : Nat → List (Nat × Nat) → Nat
+  | d0, [] => d0
+  | _, (_, d2) :: cs => loopEnd d2 cs
+
+/-- the spare darts in the order they are consumed -/
+def sparesOf (cs : List (Nat × Nat)) : List Nat := cs.flatMap (fun c => [c.1, c.2])
+
+theorem sparesOf_cons (d1 d2 : Nat) (cs : List (Nat × Nat)) : sparesOf ((d1, d2) :: cs) = d1 :: d2 :: sparesOf cs := by
+  simp [sparesOf]
+
+theorem mem_sparesOf {cs : List (Nat × Nat)} {c : Nat × Nat} (h : c ∈ cs) : c.1 ∈ sparesOf cs ∧ c.2 ∈ sparesOf cs := by
+  unfold sparesOf
+  simp only [List.mem_flatMap, List.mem_cons, List.not_mem_nil, or_false]
+  exact ⟨⟨c, h, Or.inl rfl⟩, ⟨c, h, Or.inr rfl⟩⟩
+
+theorem loopTris_mem : ∀ (cs : List (Nat × Nat)) (d0 : Nat) (L : List Nat) (t : Nat × Nat × Nat),
+    t ∈ loopTris d0 L cs → (t.1 = d0 ∨ t.1 ∈ sparesOf cs) ∧ t.2.1 ∈ L.take cs.length ∧ t.2.2 ∈ sparesOf cs := by
+  intro cs
+  induction cs with
+  | nil => intro d0 L t h; cases L <;> simp [loopTris] at h
+  | cons c rest ih =>
+      intro d0 L t h
+      obtain ⟨d1, d2⟩ := c
+      cases L with
+      | nil => simp [loopTris] at h
+      | cons x1 L' =>
+          simp only [loopTris, List.mem_cons] at h
+          rw [sparesOf_cons]
+          rcases h with rfl | h
+          · simp
+          · obtain ⟨a, b, c⟩ := ih d2 L' t h
+            refine ⟨?_, ?_, ?_⟩
+            · rcases a with a | a
+              · right; simp [a]
+              · right; simp [a]
+            · simp [b]
+            · simp [c]
+
+theorem loopTris_length : ∀ (cs : List (Nat × Nat)) (d0 : Nat) (L : List Nat), cs.length ≤ L.length →
+    (loopTris d0 L cs).length = cs.length := by
+  intro cs
+  induction cs with
+  | nil => intro d0 L _; cases L <;> simp [loopTris]
+  | cons c rest ih =>
+      intro d0 L h
+      obtain ⟨d1, d2⟩ := c
+      cases L with
+      | nil => simp at h
+      | cons x1 L' =>
+          simp only [loopTris, List.length_cons]
+          rw [ih d2 L' (by simpa using h)]
+
+theorem loopEnd_mem : ∀ (cs : List (Nat × Nat)) (d0 : Nat), loopEnd d0 cs = d0 ∨ loopEnd d0 cs ∈ sparesOf cs := by
+  intro cs
+  induction cs with
+  | nil => intro d0; left; rfl
+  | cons c rest ih =>
+      intro d0
+      obtain ⟨d1, d2⟩ := c
+      rw [sparesOf_cons]
+      simp only [loopEnd]
+      rcases ih d2 with h | h
+      · right; simp [h]
+      · right; simp [h]
+
+/-- the loop, with everything it does to the β tables -/
+theorem fanLoop_struct (cfg : Cfg Val) (nn : Nat) :
+    ∀ (cs : List (Nat × Nat)) (d0 : Nat) (L : List Nat) (m m' : Map Val) (r : Nat),
+      Inv n u m → Live n u d0 → B1Chain m d0 L → L.length = cs.length + 2 → (d0 :: L).Nodup → (∀ x ∈ L, x ≠ 0) →
+      (sparesOf cs).Nodup → (∀ x ∈ sparesOf cs, Live n u x ∧ x ∉ d0 :: L) →
+      run (fanLoop cfg nn d0 cs) m = (.ok r, m') →
+      Inv n u m' ∧ Live n u r ∧ r = loopEnd d0 cs ∧ B1Chain m' r (L.drop cs.length) ∧
+      (∀ t ∈ loopTris d0 L cs, TriFace m' t) ∧
+      (∀ c ∈ cs, m'.β 2 c.1 = c.2 ∧ m'.β 2 c.2 = c.1) ∧
+      (∀ y, y ∉ sparesOf cs → m'.β 2 y = m.β 2 y) ∧
+      (∀ y, y ∉ L.take cs.length → y ∉ sparesOf cs → m'.β 1 y = m.β 1 y) ∧
+      (∀ y, y ∉ d0 :: L → y ∉ sparesOf cs → m'.β 0 y = m.β 0 y) := by
+  intro cs
+  induction cs with
+  | nil =>
+      intro d0 L m m' r hi hd0 hch hlen _ hnz _ _ h
+      simp [fanLoop] at h
+      obtain ⟨rfl, rfl⟩ := h
+      refine ⟨hi, hd0, rfl, by simpa using hch, ?_, by simp, fun _ _ => rfl, fun _ _ _ => rfl, fun _ _ _ => rfl⟩
+      intro t ht; cases L <;> simp [loopTris] at ht
+  | cons c rest ih =>
+      intro d0 L m m' r hi hd0 hch hlen hnd hnz hsnd hsp h
+      obtain ⟨d1, d2⟩ := c
+      rw [sparesOf_cons] at hsnd hsp
+      simp only [List.nodup_cons, List.mem_cons, not_or] at hsnd
+      obtain ⟨l1, hn1⟩ := hsp d1 (by simp)
+      obtain ⟨l2, hn2⟩ := hsp d2 (by simp)
+      have hne : d1 ≠ d2 := hsnd.1.1
+      match L, hlen with
+      | x1 :: x2 :: L', hlen =>
+        obtain ⟨c1, c2, c3⟩ := hch
+        unfold fanLoop at h
+        obtain ⟨_, _, h⟩ := rB_ok hi h
+        rw [c1] at h
+        obtain ⟨_, _, h⟩ := rB_ok hi h
+        rw [c2] at h
+        obtain ⟨_, m1, s1, h⟩ := run_bind_ok h
+        obtain ⟨i1, lx1, lx2, e1⟩ := oneUnsew2_eff cfg nn hi s1
+        rw [c2] at lx2 e1
+        obtain ⟨_, m2, s2, h⟩ := run_bind_ok h
+        obtain ⟨i2, _, _, e2⟩ := twoSew2_eff cfg nn i1 l1 l2 hne s2
+        obtain ⟨_, m3, s3, h⟩ := run_bind_ok h
+        obtain ⟨i3, _, _, e3⟩ := oneSew2_eff cfg nn i2 l2 lx2 s3
+        obtain ⟨_, m4, s4, h⟩ := run_bind_ok h
+        obtain ⟨i4, _, _, e4⟩ := oneSew2_eff cfg nn i3 lx1 l1 s4
+        obtain ⟨_, m5, s5, h⟩ := run_bind_ok h
+        obtain ⟨i5, _, _, e5⟩ := oneSew2_eff cfg nn i4 l1 hd0 s5
+        -- the β tables after the iteration
+        have b1 : ∀ y, m5.β 1 y = if d1 = y then d0 else if x1 = y then d1 else if d2 = y then x2 else
+            if x1 = y then 0 else m.β 1 y := by
+          intro y
+          rw [e5, e4, e3, e2, e1]
+          simp only [show ¬ (0 = 1) by decide, show ¬ (2 = 1) by decide, false_and, if_false, true_and]
+        have b2 : ∀ y, m5.β 2 y = if d2 = y then d1 else if d1 = y then d2 else m.β 2 y := by
+          intro y
+          rw [e5, e4, e3, e2, e1]
+          simp only [show ¬ (0 = 2) by decide, show ¬ (1 = 2) by decide, false_and, if_false, true_and]
+        have b0 : ∀ y, m5.β 0 y = if d0 = y then d1 else if d1 = y then x1 else if x2 = y then d2 else
+            if x2 = y then 0 else m.β 0 y := by
+          intro y
+          rw [e5, e4, e3, e2, e1]
+          simp only [show ¬ (1 = 0) by decide, show ¬ (2 = 0) by decide, false_and, if_false, true_and]
+        simp only [List.mem_cons, not_or] at hn1 hn2
+        simp only [List.nodup_cons, List.mem_cons, not_or] at hnd
+        obtain ⟨⟨hd0x1, hd0x2, hd0L⟩, ⟨hx1x2, hx1L⟩, hx2L, hL'nd⟩ := hnd
+        have hx1d2 : x1 ≠ d2 := fun hh => hn2.2.1 hh.symm
+        have hch' : B1Chain m5 d2 (x2 :: L') := by
+          refine ⟨?_, B1Chain.frame L' x2 c3 fun y hy => ?_⟩
+          · rw [b1, if_neg hne, if_neg hx1d2, if_pos rfl]
+          · have hyL : y ∈ x2 :: L' := List.dropLast_subset _ hy
+            have y1 : d1 ≠ y := by
+              rintro rfl; simp only [List.mem_cons] at hyL
+              rcases hyL with hh | hh
+              · exact hn1.2.2.1 hh
+              · exact hn1.2.2.2 hh
+            have y2 : d2 ≠ y := by
+              rintro rfl; simp only [List.mem_cons] at hyL
+              rcases hyL with hh | hh
+              · exact hn2.2.2.1 hh
+              · exact hn2.2.2.2 hh
+            have y3 : x1 ≠ y := by
+              rintro rfl; simp only [List.mem_cons] at hyL
+              rcases hyL with hh | hh
+              · exact hx1x2 hh
+              · exact hx1L hh
+            rw [b1, if_neg y1, if_neg y3, if_neg y2, if_neg y3]
+        have hrestsp : ∀ x ∈ sparesOf rest, Live n u x ∧ x ∉ d2 :: x2 :: L' := by
+          intro x hx
+          obtain ⟨a, b⟩ := hsp x (by simp [hx])
+          refine ⟨a, ?_⟩
+          simp only [List.mem_cons, not_or] at b ⊢
+          exact ⟨fun hh => hsnd.2.1 (hh ▸ hx), b.2.2.1, b.2.2.2⟩
+        obtain ⟨j1, j2, j3, j4, j5, j6, j7, j8, j9⟩ :=
+          ih d2 (x2 :: L') m5 m' r i5 l2 hch' (by simp at hlen ⊢; omega)
+            (by simp only [List.nodup_cons, List.mem_cons, not_or]
+                exact ⟨⟨fun hh => hn2.2.2.1 hh, hn2.2.2.2⟩, hx2L, hL'nd⟩)
+            (fun x hx => hnz x (List.mem_cons_of_mem _ hx)) hsnd.2.2 hrestsp h
+        have hd0sp : d0 ∉ sparesOf rest := fun hh => (hsp d0 (by simp [hh])).2 (by simp)
+        have hx1sp : x1 ∉ sparesOf rest := fun hh => (hsp x1 (by simp [hh])).2 (by simp)
+        refine ⟨j1, j2, by simp only [loopEnd]; exact j3, by simpa using j4, ?_, ?_, ?_, ?_, ?_⟩
+        · -- triangles
+          intro t ht
+          simp only [loopTris, List.mem_cons] at ht
+          rcases ht with rfl | ht
+          · refine ⟨?_, ?_, ?_⟩
+            · show m'.β 1 d0 = x1
+              rw [j8 d0 (fun hh => by
+                    have := List.mem_of_mem_take hh
+                    simp only [List.mem_cons] at this
+                    rcases this with e | e
+                    · exact hd0x2 e
+                    · exact hd0L e) hd0sp,
+                b1, if_neg (fun hh => hn1.1 hh), if_neg (fun hh => hd0x1 hh.symm), if_neg (fun hh => hn2.1 hh),
+                if_neg (fun hh => hd0x1 hh.symm), c1]
+            · show m'.β 1 x1 = d1
+              rw [j8 x1 (fun hh => by
+                    have := List.mem_of_mem_take hh
+                    simp only [List.mem_cons] at this
+                    rcases this with e | e
+                    · exact hx1x2 e
+                    · exact hx1L e) hx1sp,
+                b1, if_neg (fun hh => hn1.2.1 hh), if_pos rfl]
+            · show m'.β 1 d1 = d0
+              rw [j8 d1 (fun hh => by
+                    have := List.mem_of_mem_take hh
+                    simp only [List.mem_cons] at this
+                    rcases this with e | e
+                    · exact hn1.2.2.1 e
+                    · exact hn1.2.2.2 e) hsnd.1.2, b1, if_pos rfl]
+          · exact j5 t ht
+        · -- β2 pairs
+          intro c hc
+          simp only [List.mem_cons] at hc
+          rcases hc with rfl | hc
+          · constructor
+            · show m'.β 2 d1 = d2
+              rw [j7 d1 hsnd.1.2, b2, if_neg (fun hh => hne hh.symm), if_pos rfl]
+            · show m'.β 2 d2 = d1
+              rw [j7 d2 hsnd.2.1, b2, if_pos rfl]
+          · exact j6 c hc
+        · intro y hy
+          rw [sparesOf_cons] at hy
+          simp only [List.mem_cons, not_or] at hy
+          rw [j7 y hy.2.2, b2, if_neg (fun hh => hy.2.1 hh.symm), if_neg (fun hh => hy.1 hh.symm)]
+        · intro y hy1 hy2
+          rw [sparesOf_cons] at hy2
+          simp only [List.mem_cons, not_or] at hy2
+          simp only [List.length_cons, List.take_succ_cons, List.mem_cons, not_or] at hy1
+          rw [j8 y hy1.2 hy2.2.2, b1, if_neg (fun hh => hy2.1 hh.symm), if_neg (fun hh => hy1.1 hh.symm),
+            if_neg (fun hh => hy2.2.1 hh.symm), if_neg (fun hh => hy1.1 hh.symm)]
+        · intro y hy1 hy2
+          rw [sparesOf_cons] at hy2
+          simp only [List.mem_cons, not_or] at hy1 hy2
+          rw [j9 y (by simp only [List.mem_cons, not_or]; exact ⟨hy2.2.1, hy1.2.2.1, hy1.2.2.2⟩) hy2.2.2, b0,
+            if_neg (fun hh => hy1.1 hh.symm), if_neg (fun hh => hy2.1 hh.symm),
+            if_neg (fun hh => hy1.2.2.1 hh.symm), if_neg (fun hh => hy1.2.2.1 hh.symm)]
+
+/-- what a successful fan from the apex dart `s` of the closed face `s :: L` with the spare pairs `cs` leaves:
+    * the `|cs| + 1 = n - 2` triangles `(s, c1, p1), (q1, c2, p2), …, (q_last, c_{n-2}, c_{n-1})`, each a closed β1-cycle
+      of three darts (`(pj, qj)` the spare pairs in order, `ci` the face darts after `s`);
+    * the spare darts 2-linked pair by pair, β2 of every other dart — in particular of every side of the polygon —
+      unchanged;
+    * every β image of every dart outside the face and the spare darts unchanged (other faces untouched) -/
+def FanResult (m m' : Map Val) (s : Nat) (L : List Nat) (cs : List (Nat × Nat)) : Prop :=
+  (∃ x1 x2, L.drop cs.length = [x1, x2] ∧
+    ∀ t ∈ loopTris s L cs ++ [(loopEnd s cs, x1, x2)], TriFace m' t) ∧
+  (loopTris s L cs).length + 1 = L.length - 1 ∧
+  (∀ c ∈ cs, m'.β 2 c.1 = c.2 ∧ m'.β 2 c.2 = c.1) ∧
+  (∀ y, y ∉ sparesOf cs → m'.β 2 y = m.β 2 y) ∧
+  (∀ i y, i < 3 → y ∉ s :: L → y ∉ sparesOf cs → m'.β i y = m.β i y)
+
+/-- the last dart of a closed face is the β0 image of its first dart -/
+theorem ClosedFace.last {m : Map Val} {s : Nat} {L : List Nat} (hc : ClosedFace m s L) (hne : L ≠ []) :
+    m.β 1 (L.getLast hne) = s := by
+  have hch := hc.chain
+  rw [← List.dropLast_concat_getLast hne, List.append_assoc, List.singleton_append, B1Chain.append] at hch
+  exact hch.2.1
+
+/-- **C13, exact face structure after the fan** (both `fan_cell` and `fan_convex_cell` end in `fanFrom` from the apex
+    dart `s`): on a closed face `s :: L` with `n = |L| + 1 ≥ 4` darts and `2(n-3)` live, pairwise distinct spare
+    darts outside the face, a successful run leaves a well-formed map with exactly the `n - 2` triangles of
+    `FanResult`, the polygon's sides keep their β2 neighbours, every other face is untouched. -/
+theorem C13_fan_structure (cfg : Cfg Val) (nn s : Nat) (nds : List Nat) (L : List Nat) (m m' : Map Val)
+    (hi : Inv n u m) (hc : ClosedFace m s L) (hlen : L.length = (chunks2 nds).length + 2)
+    (hsnd : (sparesOf (chunks2 nds)).Nodup)
+    (hsp : ∀ x ∈ sparesOf (chunks2 nds), Live n u x ∧ x ∉ s :: L)
+    (h : run (fanFrom cfg nn s nds) m = (.ok (), m')) :
+    Inv n u m' ∧ FanResult m m' s L (chunks2 nds) := by
+  unfold FanResult
+  have hp : FacePath m s L := hc.facePath
+  have hLne : L ≠ [] := by intro h0; rw [h0] at hlen; simp at hlen
+  unfold fanFrom at h
+  obtain ⟨_, hs, h⟩ := rB_ok hi h
+  obtain ⟨vid, _, h⟩ := ro_bind_ok (readOnly_vertexId2 nn s) h
+  obtain ⟨v0, _, h⟩ := ro_bind_ok (ReadOnly.rA 0 vid) h
+  cases v0 with
+  | none => simp at h
+  | some v0 =>
+      simp only at h
+      obtain ⟨_, m1, s1, h⟩ := run_bind_ok h
+      obtain ⟨i1, lb0, _, e1⟩ := oneUnsew2_eff cfg nn hi s1
+      have ls : Live n u s := hi.live_of_image (by omega) hs lb0.1
+      -- the dart before `s` is the last dart of the face
+      have hlast := hc.last hLne
+      have hzL : L.getLast hLne ∈ L := List.getLast_mem hLne
+      have hzlt : L.getLast hLne < m.n :=
+        hi.wf.toSized.lt_of_β_ne (i := 1) (by omega) (by rw [hlast]; exact ls.1)
+      have hb0 : m.β 0 s = L.getLast hLne := by
+        have := hi.wf.inv01 _ hzlt (by rw [hlast]; exact ls.1)
+        rw [hlast] at this; exact this
+      have hback : m.β 1 (m.β 0 s) = s := by rw [hb0]; exact hlast
+      rw [hback] at e1
+      have hnd := hp.nodup
+      simp only [List.nodup_cons] at hnd
+      have hch1 : B1Chain m1 s L := by
+        refine B1Chain.frame L s hp.chain fun y hy => ?_
+        have hyne : m.β 0 s ≠ y := by
+          rintro rfl
+          have := B1Chain.succ_mem L s _ hp.chain hy
+          rw [hback] at this
+          exact hnd.1 this
+        rw [e1, if_neg (fun hh => absurd hh.1 (by decide)), if_neg (fun hh => hyne hh.2)]
+      obtain ⟨r, m2, s2, h⟩ := run_bind_ok h
+      obtain ⟨i2, lr, hr, hchr, htris, hpairs, hf2, hf1, hf0⟩ :=
+        fanLoop_struct cfg nn _ s L m1 m2 r i1 ls hch1 hlen hp.nodup hp.nz hsnd hsp s2
+      -- the last two darts of the face
+      have hdrop : (L.drop (chunks2 nds).length).length = 2 := by rw [List.length_drop]; omega
+      match hD : L.drop (chunks2 nds).length, hdrop with
+      | [x1, x2], _ =>
+        rw [hD] at hchr
+        obtain ⟨c1, c2, _⟩ := hchr
+        have hx1L : x1 ∈ L := List.mem_of_mem_drop (by rw [hD]; simp)
+        have hx2L : x2 ∈ L := List.mem_of_mem_drop (by rw [hD]; simp)
+        have hx12 : x1 ≠ x2 := by
+          have : (L.drop (chunks2 nds).length).Nodup := hnd.2.sublist (List.drop_sublist _ _)
+          rw [hD] at this; simp at this; exact this
+        obtain ⟨_, _, h⟩ := rB_ok i2 h
+        rw [c1] at h
+        obtain ⟨_, hx1, h⟩ := rB_ok i2 h
+        rw [c2] at h
+        have lx2 : Live n u x2 := by
+          have := i2.live_image (i := 1) (by omega) hx1 (by rw [c2]; exact hp.nz x2 hx2L)
+          rw [c2] at this; exact this
+        obtain ⟨_, m3, s3, h⟩ := run_bind_ok h
+        obtain ⟨i3, _, _, e3⟩ := oneSew2_eff cfg nn i2 lx2 lr s3
+        obtain ⟨vid2, _, h⟩ := ro_bind_ok (readOnly_vertexId2 nn s) h
+        obtain ⟨_, m4, s4, h⟩ := run_bind_ok h
+        simp at h
+        subst h
+        have st := attrOnly_writeVtx vid2 v0 m3
+        rw [s4] at st
+        -- where `r` is: the apex or a spare dart, hence not on `L`
+        have hrL : r ∉ L := by
+          rcases loopEnd_mem (chunks2 nds) s with e | e
+          · rw [hr, e]; exact hnd.1
+          · rw [hr]; exact fun hh => (hsp _ e).2 (List.mem_cons_of_mem _ hh)
+        have b1 : ∀ y, m4.β 1 y = if x2 = y then r else m2.β 1 y := by
+          intro y; rw [st.β, e3]
+          simp only [show ¬ (0 = 1) by decide, false_and, if_false, true_and]
+        -- x2 is not among the first |cs| darts of L
+        have hx2take : x2 ∉ L.take (chunks2 nds).length := by
+          intro hh
+          have hdis := (List.nodup_append.1 (by rw [List.take_append_drop]; exact hnd.2 :
+            (L.take (chunks2 nds).length ++ L.drop (chunks2 nds).length).Nodup)).2.2
+          exact hdis x2 hh x2 (by rw [hD]; simp) rfl
+        have hx2sp : x2 ∉ sparesOf (chunks2 nds) := fun hh => (hsp x2 hh).2 (List.mem_cons_of_mem _ hx2L)
+        refine ⟨i3.sameTopo st, ⟨x1, x2, rfl, ?_⟩, ?_, ?_, ?_, ?_⟩
+        · intro t ht
+          simp only [List.mem_append, List.mem_singleton] at ht
+          rcases ht with ht | rfl
+          · obtain ⟨a, b, c⟩ := loopTris_mem _ _ _ t ht
+            obtain ⟨t1, t2, t3⟩ := htris t ht
+            have n1 : x2 ≠ t.1 := by
+              rcases a with a | a
+              · rw [a]; exact fun hh => hnd.1 (hh ▸ hx2L)
+              · exact fun hh => hx2sp (hh ▸ a)
+            have n2 : x2 ≠ t.2.1 := fun hh => hx2take (hh ▸ b)
+            have n3 : x2 ≠ t.2.2 := fun hh => hx2sp (hh ▸ c)
+            exact ⟨by rw [b1, if_neg n1]; exact t1, by rw [b1, if_neg n2]; exact t2,
+              by rw [b1, if_neg n3]; exact t3⟩
+          · rw [← hr]
+            refine ⟨?_, ?_, ?_⟩
+            · show m4.β 1 r = x1
+              rw [b1, if_neg (fun (hh : x2 = r) => hrL (hh ▸ hx2L))]; exact c1
+            · show m4.β 1 x1 = x2
+              rw [b1, if_neg (fun hh => hx12 hh.symm)]; exact c2
+            · show m4.β 1 x2 = r
+              rw [b1, if_pos rfl]
+        · rw [loopTris_length _ _ _ (by omega)]; omega
+        · intro c hcm
+          obtain ⟨a, b⟩ := hpairs c hcm
+          have e : ∀ y, m4.β 2 y = m2.β 2 y := by
+            intro y; rw [st.β, e3]
+            simp only [show ¬ (0 = 2) by decide, show ¬ (1 = 2) by decide, false_and, if_false]
+          exact ⟨by rw [e]; exact a, by rw [e]; exact b⟩
+        · intro y hy
+          have e : m4.β 2 y = m2.β 2 y := by
+            rw [st.β, e3]
+            simp only [show ¬ (0 = 2) by decide, show ¬ (1 = 2) by decide, false_and, if_false]
+          rw [e, hf2 y hy, e1]
+          simp only [show ¬ (0 = 2) by decide, show ¬ (1 = 2) by decide, false_and, if_false]
+        · intro i y hi3 hyF hySp
+          simp only [List.mem_cons, not_or] at hyF
+          have hys : s ≠ y := fun hh => hyF.1 hh.symm
+          have hyb0 : m.β 0 s ≠ y := by rw [hb0]; exact fun hh => hyF.2 (hh ▸ hzL)
+          have hyx2 : x2 ≠ y := fun hh => hyF.2 (hh ▸ hx2L)
+          have hyr : r ≠ y := by
+            rcases loopEnd_mem (chunks2 nds) s with e | e
+            · rw [hr, e]; exact hys
+            · rw [hr]; exact fun hh => hySp (hh ▸ e)
+          rw [st.β, e3, if_neg (fun hh => hyr hh.2), if_neg (fun hh => hyx2 hh.2)]
+          have : i = 0 ∨ i = 1 ∨ i = 2 := by omega
+          rcases this with rfl | rfl | rfl
+          · rw [hf0 y (by simp only [List.mem_cons, not_or]; exact hyF) hySp, e1,
+              if_neg (fun hh => hys hh.2), if_neg (fun hh => absurd hh.1 (by decide))]
+          · rw [hf1 y (fun hh => hyF.2 (List.mem_of_mem_take hh)) hySp, e1,
+              if_neg (fun hh => absurd hh.1 (by decide)), if_neg (fun hh => hyb0 hh.2)]
+          · rw [hf2 y hySp, e1, if_neg (fun hh => absurd hh.1 (by decide)),
+              if_neg (fun hh => absurd hh.1 (by decide))]
+
+theorem sparesOf_chunks2_sublist : ∀ (l : List Nat), (sparesOf (chunks2 l)).Sublist l
+  | [] => by simp [chunks2, sparesOf]
+  | [_] => by simp [chunks2, sparesOf]
+  | a :: b :: rest => by
+      simp only [chunks2, sparesOf_cons]
+      exact ((sparesOf_chunks2_sublist rest).cons₂ b).cons₂ a
+
+/-- **C13, exact face structure, `fan_convex_cell`** on a closed face read from the face dart -/
+theorem C13_fan_convex_structure (cfg : Cfg Val) (m m' : Map Val) (face : Nat) (nds : List Nat) (L : List Nat)
+    (hwf : WF 3 m) (hc : ClosedFace m face L) (hsp : ∀ d ∈ nds, C01.InUse m d ∧ d ∉ face :: L) (hnd : nds.Nodup)
+    (h : run (fanConvexCell cfg m.n face nds) m = (.ok (), m')) :
+    WF 3 m' ∧ FanResult m m' face L (chunks2 nds) := by
+  unfold fanConvexCell at h
+  obtain ⟨darts, h1, h3⟩ := ro_bind_ok (readOnly_orbit2 m.n .faceLinear face) h
+  cases hcr : checkRequirements darts.length nds.length with
+  | error e => simp [hcr] at h3
+  | ok v =>
+      simp only [hcr] at h3
+      cases v
+      have hreq := (C13_check_requirements_ok_iff _ _).1 hcr
+      have hk := chunks2_length nds
+      obtain ⟨hdl, _⟩ := closedFace_orbit hwf hc (by simp) (hc.lt hwf (by simp)) darts h1
+      have hsub := sparesOf_chunks2_sublist nds
+      obtain ⟨i1, r⟩ := C13_fan_structure (n := m.n) (u := m.u) cfg m.n face nds L m m' (Inv.of_wf hwf) hc
+        (by simp at hdl; omega) (hnd.sublist hsub)
+        (fun x hx => ⟨(hsp x (hsub.subset hx)).1, (hsp x (hsub.subset hx)).2⟩) h3
+      exact ⟨i1.wf, r⟩
+
+/-- **C13, exact face structure, `fan_cell`**: on a closed face `a :: rest`, a successful run has fanned the face
+    from one of its darts `s` — the dart of the index returned by the star search; `s :: L` is the same face read
+    from `s` — with the result of `FanResult` -/
+theorem C13_fan_cell_structure (cfg : Cfg Val) (m m' : Map Val) (face : Nat) (nds : List Nat)
+    (a : Nat) (rest : List Nat) (hwf : WF 3 m) (hc : ClosedFace m a rest) (hf : face ∈ a :: rest)
+    (hsp : ∀ d ∈ nds, C01.InUse m d ∧ d ∉ a :: rest) (hnd : nds.Nodup)
+    (h : run (fanCell cfg m.n face nds) m = (.ok (), m')) :
+    WF 3 m' ∧ ∃ s L, s ∈ a :: rest ∧ ClosedFace m s L ∧ (∀ x, x ∈ s :: L ↔ x ∈ a :: rest) ∧
+      FanResult m m' s L (chunks2 nds) := by
+  obtain ⟨darts, vals, id, h1, h2, h4, hn, hs, hfrom, _⟩ := C13_fan_kernel_star cfg m.n face nds m m' h
+  obtain ⟨hvl, _⟩ := faceVertices_length m.n _ _ _ _ h2
+  have hid : id < darts.length := by
+    have := (fanStarFrom_some _ _ id hs).1
+    simpa [hvl] using this
+  have hmem : darts.getD id 0 ∈ darts := by
+    rw [List.getD_eq_getElem?_getD, List.getElem?_eq_getElem hid]
+    exact List.getElem_mem hid
+  obtain ⟨hdl, hin⟩ := closedFace_orbit hwf hc hf (hc.lt hwf hf) darts h1
+  obtain ⟨L, hcs, hl, hinL, hcov⟩ := hc.rotate (hin _ hmem)
+  have hk := chunks2_length nds
+  have hsub := sparesOf_chunks2_sublist nds
+  have hiff : ∀ x, x ∈ darts.getD id 0 :: L ↔ x ∈ a :: rest := by
+    intro x
+    constructor
+    · intro hx
+      rw [List.mem_cons] at hx
+      rcases hx with rfl | hx
+      · exact hin _ hmem
+      · exact hinL x hx
+    · intro hx
+      rw [List.mem_cons]
+      exact hcov x hx
+  obtain ⟨i1, r⟩ := C13_fan_structure (n := m.n) (u := m.u) cfg m.n _ nds L m m' (Inv.of_wf hwf) hcs
+    (by omega) (hnd.sublist hsub)
+    (fun x hx => ⟨(hsp x (hsub.subset hx)).1, fun hh => (hsp x (hsub.subset hx)).2 ((hiff x).1 hh)⟩) hfrom
+  exact ⟨i1.wf, _, L, hin _ hmem, hcs, hiff, r⟩
 
 /-! ## non-vacuity -/
 
@@ -497,5 +997,22 @@ example : WF 3 (run (fanConvexCell (stdCfg 3 0) d7Map.n 1 [6, 7, 8, 9]) d7Map).2
       simp only [Out.ok.injEq] at this
       subst this; rfl)
     (by decide +kernel) (by decide) (ok_of_fst (by decide +kernel))
+
+/-- the structure theorem on the pentagon: `fan_convex_cell` from dart 1 leaves the triangles (1,2,6), (7,3,8),
+    (9,4,5), the spare pairs 6–7, 8–9 2-linked, and nothing else changed -/
+example : FanResult d7Map (run (fanConvexCell (stdCfg 3 0) d7Map.n 1 [6, 7, 8, 9]) d7Map).2 1 [2, 3, 4, 5]
+    [(6, 7), (8, 9)] :=
+  (C13_fan_convex_structure _ d7Map _ 1 [6, 7, 8, 9] [2, 3, 4, 5] (by decide +kernel)
+    ⟨by decide +kernel, by decide, by decide⟩ (by decide +kernel) (by decide) (ok_of_fst (by decide +kernel))).2
+example : loopTris 1 [2, 3, 4, 5] [(6, 7), (8, 9)] ++ [(loopEnd 1 [(6, 7), (8, 9)], 4, 5)]
+    = [(1, 2, 6), (7, 3, 8), (9, 4, 5)] := by decide
+example : ∀ t ∈ [(1, 2, 6), (7, 3, 8), (9, 4, 5)],
+    TriFace (run (fanConvexCell (stdCfg 3 0) d7Map.n 1 [6, 7, 8, 9]) d7Map).2 t := by decide +kernel
+/-- `fan_cell` on the same face fans it from dart 2 (vertex (2,1), index 1 of the star search) -/
+example : ∃ s L, s ∈ [1, 2, 3, 4, 5] ∧ ClosedFace d7Map s L ∧ (∀ x, x ∈ s :: L ↔ x ∈ [1, 2, 3, 4, 5]) ∧
+    FanResult d7Map (run (fanCell (stdCfg 3 0) d7Map.n 1 [6, 7, 8, 9]) d7Map).2 s L [(6, 7), (8, 9)] :=
+  (C13_fan_cell_structure _ d7Map _ 1 [6, 7, 8, 9] 1 [2, 3, 4, 5] (by decide +kernel)
+    ⟨by decide +kernel, by decide, by decide⟩ (by decide) (by decide +kernel) (by decide)
+    (ok_of_fst (by decide +kernel))).2
 
 end HC.C13
